@@ -244,7 +244,7 @@ class DictRoundTrip(Contract):
         p.prove(z3.BoolVal(ok), f"{q}:C13:x has one column per parameter {tag}")
         if ok:
             for j, nm in enumerate(g["names"]):
-                p.prove(arr_eq_goal(x.f["cols"].items[j], g["cols"][j]), f"{q}:C13:C16:column {j} of the reloaded x holds the values stored under parameter '{nm}' {tag}")
+                p.prove(arr_eq_goal(x.f["cols"].items[j], g["cols"][j]), f"{q}:C13:C16:C10:column {j} of the reloaded x holds the values stored under parameter '{nm}' {tag}")
         pr = r.f.get("parameters")
         p.prove(z3.BoolVal(isinstance(pr, PyList) and [v.v for v in pr.items] == g["names"]), f"{q}:C13:parameter names and their order preserved {tag}")
         for k in FIELDS[1:]:
